@@ -14,10 +14,45 @@ class WorkerDies(BaseException):
     """not an Exception: the worker loop does not catch it, the process dies"""
 
 
+class Anything:
+    """an item that compares equal to everything (like unittest.mock.ANY): items are opaque to parallel_add"""
+
+    def __init__(self, tag):
+        self.tag = tag
+
+    def __eq__(self, other):
+        return True
+
+    def __ne__(self, other):
+        return False
+
+    __hash__ = None
+
+
+def realize(item):
+    """cases describe unusual items symbolically ({'special': 'nparr' | 'any', ...}); this builds the object handed to parallel_add"""
+    if isinstance(item, dict) and item.get("special") == "nparr":
+        import numpy as np
+
+        return np.array(item["vals"], dtype=np.uint32)
+    if isinstance(item, dict) and item.get("special") == "any":
+        return Anything(item["tag"])
+    return item
+
+
 def normalize(item):
     """Items may be any picklable objects; non-dict items get a fixed meaning:
     int i -> one record with key b'int:<i>'; str -> one record whose key is the encoded string;
-    bytes -> one record with that key; list/tuple -> one record adding each element (a list update)."""
+    bytes -> one record with that key; list/tuple -> one record adding each element (a list update);
+    numpy array -> one record adding b'np:<x>' per element; Anything(tag) -> one record with key b'any:<tag>'."""
+    if type(item).__name__ == "ndarray":
+        item = {"special": "nparr", "vals": [int(x) for x in item.ravel()]}
+    if isinstance(item, Anything):
+        item = {"special": "any", "tag": item.tag}
+    if isinstance(item, dict) and "special" in item:
+        if item["special"] == "nparr":
+            return {"keys": [b"np:%d" % v for v in item["vals"]], "mult": None, "ngram": None, "ret": 1, "mode": "ok", "idx": "np" + repr(item["vals"])}
+        return {"keys": [b"any:%d" % item["tag"]], "mult": None, "ngram": None, "ret": 1, "mode": "ok", "idx": "any%d" % item["tag"]}
     if isinstance(item, dict):
         return item
     if isinstance(item, bool) or isinstance(item, int):
